@@ -1,6 +1,7 @@
 #include "static_variants.hpp"
 namespace {
 #if VF_GROUP == 0
+VF_COMP_HUGE(uint32_t, 8, 4, float);
 VF_COMP(uint64_t, 1, 1, float);
 VF_COMP(uint32_t, 8, 0, float);
 #endif
